@@ -21,6 +21,7 @@ ASSUMPTIONS = ['device memory protocol as in the firmware: read reply <=24 data 
                'duplicates are drained before a conflicting request is issued (a stale reply may legitimately carry old data)']
 REQUIRED = ['mon.reads_completed', 'mon.writes_completed', 'mon.failed_notifications', 'mon.images_compared',
             'mon.chunk_requests', 'mon.probe_after_history', 'mon.link_drop_runs', 'mon.error_status_runs',
+            'mon.requests_issued_while_no_link_is_open',
             'mon.duplicate_reply_runs', 'mon.lossy_runs', 'mon.high_address_runs']
 DESC_TIMEOUT = 900
 
@@ -100,6 +101,7 @@ def one_run(desc, k, calibrate=False):
             m.mem_write_cb.add_callback(lambda mem, addr: res['completions'].append(('write_ok', mem.id, addr, None, spec.seq)))
             m.mem_write_failed_cb.add_callback(lambda mem, addr: res['completions'].append(('write_fail', mem.id, addr, None, spec.seq)))
         hook(cf.mem)
+        session1_mems = [cf.mem.get_mem(mi) for mi in range(min(3, len(dev.mems)))]
         # ---- fault scripts (armed only now, the connection itself is fault-free)
         mem_replies = {'n': 0}
         if not calibrate:
@@ -171,7 +173,25 @@ def one_run(desc, k, calibrate=False):
         spec.tx_filter = None
         dev.hooks.pop('mem_status', None)
         spec.fail_after_rx = spec.fail_after_tx = None
+        if cf.link is not None and not calibrate and desc['seed'] % 3 == 0:
+            cf.close_link()
+            s.sleep(0.2)
+            res['closed_by_harness'] = True
         if cf.link is None:
+            # requests issued while no link is open (an application still holding the memory objects of the last
+            # session): refused, nothing transmitted, nothing left behind for the next session
+            t_tx = len(spec.tx)
+            n_comp = len(res['completions'])
+            refused = []
+            for m_old in session1_mems:
+                if m_old is None:
+                    continue
+                o = dev.mems[m_old.id]['origin']
+                refused.append(('write', m_old.id, cf.mem.write(m_old, o + 2, b'\x11\x22')))
+                refused.append(('read', m_old.id, cf.mem.read(m_old, o, 4)))
+            s.sleep(1.5)
+            res['offline_requests'] = {'returns': refused, 'transmitted': len(spec.tx) - t_tx,
+                                       'notifications': len(res['completions']) - n_comp}
             done.clear()
             cf.open_link(uri)
             if not done.wait(300.0):
@@ -365,6 +385,11 @@ def judge(desc, k, res, ctx, rp):
         V('mem:write-lock-left-locked', a)
     if (a['reads'] or a['writes']) and not dropped:
         V('mem:pending-request-record-left-behind', {'reads': list(a['reads']), 'writes': a['writes']})
+    off = res.get('offline_requests')
+    if off is not None:
+        ctx.count('mon.requests_issued_while_no_link_is_open', len(off['returns']))
+        if off['transmitted'] or off['notifications'] or any(r[2] for r in off['returns']):
+            V('mem:request-without-a-link-not-refused-cleanly', off)
     ctx.count('mon.probe_after_history')
     pr = res.get('probe', [])
     for (mi, first8) in res.get('probe_expect', []):
